@@ -8,8 +8,10 @@
    look-back validator sets, [st] the ledger (validators, withdraw queue,
    penalty account).  [r_processed] of the result is the set of validators on
    which doPenalize ran (doubleSignedValidators).  [fx] says which of the two
-   proposed repairs the code under test contains (both false on the unchanged
-   tree; the harness measures it on every run). *)
+   repairs the code under test contains; /repo contains both since 0c3d6f7 and
+   e1d256e, i.e. it is [fx_now = mkFix true true] (measured by the harness on
+   every run and passed with every correspondence case).  The main theorems are
+   stated for the tree as it is; the versions for arbitrary [fx] are kept. *)
 From Coq Require Import Lia ZArith NArith List Bool.
 From VF.C05 Require Import Model ProofsPenalty ProofsShares ProofsEvidence ProofsHonest Bridge.
 Local Open Scope Z_scope.
@@ -45,6 +47,37 @@ Theorem C05_honest_safe_outside :
 Proof. exact honest_safe_outside. Qed.
 Print Assumptions C05_honest_safe_outside.
 
+(* MAIN (tree as it is, fx_distinct = true): only class (b) is left.  An honest
+   validator is slashed only if the evidence list holds two different hashes it
+   really signed at that round/index as votes of different kinds or as its two
+   next-index votes (open finding: the vote kind is not signed). *)
+Theorem C05_honest_safe_outside_now :
+  forall (vf : vfun) (emits : N -> N -> N -> N -> N -> Prop) (honest : N -> Prop),
+    (forall pk h r i s, honest pk -> vf pk h r i s = true -> exists k, emits pk k h r i) ->
+    (forall pk k h h' r i, honest pk -> k <> next_index -> emits pk k h r i -> emits pk k h' r i -> h = h') ->
+    forall cfg ch parent hnum evs st res' a,
+      process_evidences fx_now vf cfg ch parent hnum evs st = Some res' ->
+      (forall pk, registered ch a pk -> honest pk) ->
+      In a (r_processed res') ->
+      exists ev pk, In ev evs /\ registered ch a pk /\ cross_kind_class emits ev pk.
+Proof.
+  exact (fun vf emits honest Hu Ho cfg ch parent hnum evs st res' a =>
+           honest_safe_outside_repaired fx_now vf emits honest Hu Ho cfg ch parent hnum evs st res' a eq_refl).
+Qed.
+Print Assumptions C05_honest_safe_outside_now.
+
+(* MAIN: an evidence that names a single hash (one vote listed any number of
+   times) does nothing, wherever it is placed (repair 0c3d6f7) *)
+Theorem C05_single_hash_evidence_inert :
+  forall vf cfg ch parent hnum r ri idx vt signs res,
+    two_hashes signs = false ->
+    process_ds fx_now vf cfg ch parent hnum (EvDS r ri idx vt signs) res = Some res.
+Proof.
+  exact (fun vf cfg ch parent hnum r ri idx vt signs res =>
+           single_hash_evidence_inert fx_now vf cfg ch hnum parent r ri idx vt signs res eq_refl).
+Qed.
+Print Assumptions C05_single_hash_evidence_inert.
+
 (* ... and a validator on which doPenalize did not run keeps its ledger record *)
 Theorem C05_honest_record_kept :
   forall (fx : fixes) (vf : vfun) (emits : N -> N -> N -> N -> N -> Prop) (honest : N -> Prop),
@@ -58,7 +91,8 @@ Theorem C05_honest_record_kept :
 Proof. exact honest_record_kept. Qed.
 Print Assumptions C05_honest_record_kept.
 
-(* class (a) is closed by the proposed repair and open without it *)
+(* class (a) was open before repair 0c3d6f7 and is closed by it (regression
+   witness corpus/C05/w1_same_signature_twice.json) *)
 Theorem C05_duplicate_class :
   (forall z, exists res', process_evidences (mkFix false z) w_vf w_cfg w_chain 10 11 [w_duplicate] w_state = Some res'
                           /\ In 9%N (r_processed res')) /\
@@ -183,30 +217,46 @@ Print Assumptions C05_penalize_effects.
 
 (* ---- 5. builder and validator ------------------------------------------------------------------- *)
 
-(* The validator's replay of the slash data the builder wrote, on the same
-   parent state, yields the same ledger, logs, affected and confirmed lists -
-   provided doPenalize never ran with nothing taken (every processed validator
-   is an affected one), or the zero-penalty repair is in. *)
+(* MAIN (tree as it is, fx_zero = true, repair e1d256e; parent height taken
+   from the header, ec9154c): for every pool, ledger and chain the validator's
+   replay of the slash data the builder wrote, on the same parent state, yields
+   the same ledger, logs, affected and confirmed lists. *)
+Theorem C05_builder_validator :
+  forall vf cfg ch hnum pool st res pend sd,
+    slashing fx_now vf cfg ch hnum pool st = Some (res, pend, sd) ->
+    exists res2,
+      replay_slashing fx_now vf cfg ch hnum sd st = Some (res2, false) /\
+      r_state res2 = r_state res /\ r_logs res2 = r_logs res /\
+      r_affected res2 = r_affected res /\ r_confirmed res2 = r_confirmed res.
+Proof.
+  exact (fun vf cfg ch hnum pool st res pend sd =>
+           builder_validator_agree_repaired fx_now vf cfg ch hnum pool st res pend sd eq_refl).
+Qed.
+Print Assumptions C05_builder_validator.
+
+(* general version: without the repair it holds provided doPenalize never ran
+   with nothing taken (every processed validator is an affected one) *)
 Theorem C05_builder_validator_outside :
-  forall fx vf cfg ch parent hnum pool st res pend sd,
-    slashing fx vf cfg ch parent hnum pool st = Some (res, pend, sd) ->
+  forall fx vf cfg ch hnum pool st res pend sd,
+    slashing fx vf cfg ch hnum pool st = Some (res, pend, sd) ->
     (fx_zero fx = true \/ length (r_processed res) = length (r_affected res)) ->
     exists res2,
-      replay_slashing fx vf cfg ch parent hnum sd st = Some (res2, false) /\
+      replay_slashing fx vf cfg ch hnum sd st = Some (res2, false) /\
       r_state res2 = r_state res /\ r_logs res2 = r_logs res /\
       r_affected res2 = r_affected res /\ r_confirmed res2 = r_confirmed res.
 Proof. exact builder_validator_agree. Qed.
 Print Assumptions C05_builder_validator_outside.
 
-(* Without that repair the clause is false: penalty fraction 0, a real
-   equivocation - the builder expels validator 9, the replay does not. *)
-Theorem C05_builder_validator_refuted :
+(* ... and was false without it: penalty fraction 0, a real equivocation - the
+   builder expels validator 9, the replay does not (regression witness
+   corpus/C05/w4_zero_penalty_builder_only.json) *)
+Theorem C05_builder_validator_refuted_before_repair :
   forall d, exists res pend sd res2,
-    slashing (mkFix d false) w_vf w_cfg0 w_chain 10 11 [w_equivocation] w_state = Some (res, pend, sd) /\
-    replay_slashing (mkFix d false) w_vf w_cfg0 w_chain 10 11 sd w_state = Some (res2, false) /\
+    slashing (mkFix d false) w_vf w_cfg0 w_chain 11 [w_equivocation] w_state = Some (res, pend, sd) /\
+    replay_slashing (mkFix d false) w_vf w_cfg0 w_chain 11 sd w_state = Some (res2, false) /\
     find_val (s_vals (r_state res)) 9%N <> find_val (s_vals (r_state res2)) 9%N.
 Proof. exact builder_validator_refuted_without_repair. Qed.
-Print Assumptions C05_builder_validator_refuted.
+Print Assumptions C05_builder_validator_refuted_before_repair.
 
 (* ---- 6. bridge: the constants of the working tree ------------------------------------------------ *)
 Theorem C05_real_params_ok :
@@ -220,6 +270,12 @@ Theorem C05_vote_kinds_agree :
   real_kinds_staking = [2%N; 3%N; 4%N; vote_certificate].
 Proof. exact real_kinds_agree. Qed.
 Print Assumptions C05_vote_kinds_agree.
+
+(* the tree under test is the repaired setting the main theorems are stated for
+   (measured by the harness on the real code before every build) *)
+Theorem C05_tree_is_repaired : mkFix real_fx_distinct real_fx_zero = fx_now.
+Proof. exact real_tree_is_repaired. Qed.
+Print Assumptions C05_tree_is_repaired.
 
 (* ---- non-vacuity ------------------------------------------------------------------------------------ *)
 
@@ -269,7 +325,7 @@ Print Assumptions C05_nonvacuous_bound.
 (* the builder confirms a real equivocation and the replay agrees *)
 Example C05_nonvacuous_builder :
   exists res pend sd,
-    slashing (mkFix false false) w_vf w_cfg w_chain 10 11 [w_equivocation; w_equivocation] w_state = Some (res, pend, sd) /\
+    slashing fx_now w_vf w_cfg w_chain 11 [w_equivocation; w_duplicate; w_equivocation] w_state = Some (res, pend, sd) /\
     sd = SDList [w_equivocation] /\ r_affected res = [9%N] /\
     length (r_processed res) = length (r_affected res) /\
     s_penalty_to (r_state res) = 200000000000000000.
